@@ -2,7 +2,9 @@
 NOTES = ("Technique family: contract-based deductive verification of the real code. Exit codes: 0 all obligations discharged; "
          "1 + VIOLATION line: an obligation that holds on the unchanged tree fails; 2 undecided (tool limit, lost anchor, "
          "compile error in the tree under check) - never an alarm. K-bnd harnesses are bounded stand-ins and are reported "
-         "separately in evidence.coverage.bounded, never counted as discharged proof obligations.")
+         "separately in evidence.coverage.bounded, never counted as discharged proof obligations. Genuine defects found by these checks "
+         "and repaired in /repo (unguarded 'fix:' commits 3e00ef7, c081832, c337c7e, all C06) are recorded as 'fixed:' entries in "
+         "/verif/known_findings.txt (they suppress nothing); there is no open known finding.")
 
 NOT_BUILT = "not built yet in this session (planned in DESIGN.md §4); no check is registered, nothing is claimed"
 
